@@ -78,3 +78,81 @@ Proof.
   unfold less, key, key_lt. destruct (u_rewrite a), (u_rewrite b); simpl; rewrite ?Nat.ltb_lt; split; intro H; try lia; try discriminate;
     try (destruct H as [H|[_ H]]; lia); try (right; split; [reflexivity|exact H]); try reflexivity; try (left; lia).
 Qed.
+
+(* ---- rewritePath: the original query is forwarded as received ---- *)
+Lemma prefixb_app (a b : str) : prefixb a (a ++ b) = true.
+Proof. induction a as [|x a IH]; [destruct b; reflexivity|]. simpl. rewrite N.eqb_refl. exact IH. Qed.
+
+Lemma cut_question_spec l p q : cut_question l = Some (p, q) -> l = p ++ question :: q /\ ~ In question p.
+Proof.
+  revert p q. induction l as [|c l IH]; intros p q H; [discriminate|].
+  simpl in H. destruct (c =? question)%N eqn:E.
+  - inversion H; subst. apply N.eqb_eq in E. subst c. split; [reflexivity|intros []].
+  - destruct (cut_question l) as [[a b]|] eqn:Hc; [|discriminate]. inversion H; subst.
+    destruct (IH a q eq_refl) as [-> Hn]. split; [reflexivity|].
+    intros [Ec|Hin]; [subst c; rewrite N.eqb_refl in E; discriminate|contradiction].
+Qed.
+
+Lemma cut_question_none l : cut_question l = None -> ~ In question l.
+Proof.
+  induction l as [|c l IH]; intro H; [intros []|].
+  simpl in H. destruct (c =? question)%N eqn:E; [discriminate|].
+  destruct (cut_question l) as [[a b]|]; [discriminate|].
+  intros [Ec|Hin]; [subst c; rewrite N.eqb_refl in E; discriminate|exact (IH eq_refl Hin)].
+Qed.
+
+Lemma forwarded_query_verbatim reencode rewritten orig q :
+  forwarded_query reencode rewritten orig = Some q ->
+  prefixb orig q = true /\ (rewritten = None -> q = orig).
+Proof.
+  unfold forwarded_query, split_path_and_query. destruct rewritten as [nu|].
+  - destruct (cut_question nu) as [[p aq]|].
+    + destruct (reencode aq) as [rq|]; [|discriminate].
+      destruct orig as [|o orig]; [intro H; inversion H; split; [reflexivity|discriminate]|].
+      destruct rq as [|r rq]; intro H; inversion H; subst; (split; [|discriminate]).
+      * rewrite <- (app_nil_r (o :: orig)) at 2. apply prefixb_app.
+      * apply (prefixb_app (o :: orig)).
+    + intro H. inversion H; subst. split; [|discriminate].
+      rewrite <- (app_nil_r q) at 2. apply prefixb_app.
+  - intro H. inversion H; subst. split; [|reflexivity]. rewrite <- (app_nil_r q) at 2. apply prefixb_app.
+Qed.
+
+(* exactly the rule's additions are appended, re-encoded by the library *)
+Lemma forwarded_query_additions reencode nu orig p aq rq :
+  cut_question nu = Some (p, aq) -> reencode aq = Some rq ->
+  forwarded_query reencode (Some nu) orig =
+    Some (match orig, rq with [], _ => rq | _, [] => orig | _, _ => orig ++ ampersand :: rq end).
+Proof.
+  intros Hc Hr. unfold forwarded_query, split_path_and_query. rewrite Hc, Hr.
+  destruct orig; [reflexivity|]. destruct rq; reflexivity.
+Qed.
+
+Lemma forwarded_query_no_additions reencode nu orig :
+  cut_question nu = None -> forwarded_query reencode (Some nu) orig = Some orig.
+Proof. intro Hc. unfold forwarded_query, split_path_and_query. rewrite Hc. reflexivity. Qed.
+
+(* a rewrite is refused only when the rule's own query cannot be parsed *)
+Lemma forwarded_query_refused reencode rewritten orig :
+  forwarded_query reencode rewritten orig = None <->
+  exists nu p aq, rewritten = Some nu /\ cut_question nu = Some (p, aq) /\ reencode aq = None.
+Proof.
+  unfold forwarded_query, split_path_and_query. split.
+  - destruct rewritten as [nu|]; [|discriminate].
+    destruct (cut_question nu) as [[p aq]|] eqn:Hc; [|discriminate].
+    destruct (reencode aq) as [rq|] eqn:Hr.
+    + destruct orig; [discriminate|]. destruct rq; discriminate.
+    + intros _. exists nu, p, aq. auto.
+  - intros (nu & p & aq & -> & Hc & Hr). rewrite Hc, Hr. reflexivity.
+Qed.
+
+(* the rewritten path never carries a '?' *)
+Lemma split_path_no_question reencode orig nu p q :
+  split_path_and_query reencode orig nu = Some (p, q) -> ~ In question p.
+Proof.
+  unfold split_path_and_query. destruct (cut_question nu) as [[p' aq]|] eqn:Hc.
+  - destruct (cut_question_spec _ _ _ Hc) as [_ Hn].
+    destruct (reencode aq) as [rq|]; [|discriminate].
+    destruct orig; [intro H; inversion H; subst; exact Hn|].
+    destruct rq; intro H; inversion H; subst; exact Hn.
+  - intro H. inversion H; subst. apply cut_question_none. exact Hc.
+Qed.
